@@ -187,6 +187,15 @@ def main():
     nb3 = fn_body(adm, "new_status_report_bundle") or ""
     m = re.search(r"PrimaryBlockBuilder::default\(\)(.*?)\.build\(\)", nb3, flags=re.S)
     txt("adm_report_bundle_builder", re.sub(r"\s+", "", m.group(1)) if m else None)
+    # ---- C10: endpoint ID strings
+    eid = src("eid.rs")
+    tf = fn_body(eid, "try_from", r"impl TryFrom<&str> for EndpointID \{[^}]*?") or ""
+    txt("eid_parse_body", tf)
+    txt("eid_node_id_formats", "|".join(re.findall(r'format!\(\s*"([^"]*)"', fn_body(eid, "node_id") or "")))
+    txt("eid_new_endpoint_formats", "|".join(re.findall(r'format!\(\s*"([^"]*)"', fn_body(eid, "new_endpoint") or "")))
+    m = re.search(r"impl fmt::Display for EndpointID \{(.*?)\n\}", eid, flags=re.S)
+    txt("eid_display_format", "|".join(re.findall(r'write!\(f,\s*"([^"]*)"', m.group(1))) if m else None)
+    txt("eid_validate_dtn_rule", (lambda mm: re.sub(r"\s+", "", mm.group(1)) if mm else None)(re.search(r"EndpointID::Dtn\(_, addr\) => \{ if ([^{]*)\{", fn_body(eid, "validate", r"pub ") or "")))
     # ---- emit
     lines = ["/- GENERATED by tools/extract.py from /repo/src — do not edit. -/", "namespace Bp7.Extracted", ""]
     for name, kind, v in facts:
